@@ -295,7 +295,7 @@ fn real_server_outputs(ctx: &Ctx, out: &mut Out, rng: &mut Rng) {
         }
     }
     out.obs("documented_sample_seeds_found", doc_seeds.len() as i64);
-    let n = ctx.share(112, 900); // (3 x 35 failing-start kinds + margin: every kind at least once in the quick tier)
+    let n = ctx.share(120, 900); // (3 x 37 failing-start kinds + margin: every kind at least once in the quick tier)
     for i in 0..n {
         let k = i * ctx.nshards + ctx.shard;
         // one run in five uses a seed whose hex form consists of decimal digits only (YAML types
@@ -347,7 +347,11 @@ fn real_server_outputs(ctx: &Ctx, out: &mut Out, rng: &mut Rng) {
         }
         if failing {
             let hx = hex(&seed);
-            let (kk, vv, w): (&str, String, &str) = match (k / 3) % 35 {
+            let (kk, vv, w): (&str, String, &str) = match (k / 3) % 37 {
+                // a KMS key id with a seed text longer than 32 bytes (what a wrapped blob looks like)
+                // in a binary without KMS support: passes validation, fails when the seed is loaded
+                35 => ("__raw__noseed_kms_a", format!("seed: {}{}\nkms_protection: arn:aws:kms:us-east-2:111122223333:key/1234abcd-12ab-34cd-56ef-1234567890ab", hx, hex(&rng.bytes(40))), "aws kms id with a seed text longer than 32 bytes"),
+                36 => ("__raw__noseed_kms_b", format!("seed: {}{}\nkms_protection: projects/p/locations/global/keyRings/r/cryptoKeys/k", hx, hex(&rng.bytes(17))), "gcp kms id with a seed text longer than 32 bytes"),
                 29 => ("__raw__noseed_noif_a", format!("seed: {}\ninterface:", hx), "a blank interface right after the seed line"),
                 30 => ("__raw__noseed_noif_b", format!("seed: {}\ninterface: ~", hx), "a null interface right after the seed line"),
                 31 => ("__raw__noseed_c2", format!("seed: {}\npersistence_directory:\nclient_stats: on", hx), "a blank persistence_directory right after the seed line"),
@@ -393,7 +397,7 @@ fn real_server_outputs(ctx: &Ctx, out: &mut Out, rng: &mut Rng) {
             if kk.starts_with("__raw__noseed_noif") {
                 pairs.retain(|(a, _)| a != "interface");
             }
-            if (32..=34).contains(&((k / 3) % 35)) {
+            if (32..=34).contains(&((k / 3) % 37)) {
                 cfg.via_env = true;
             }
             if vv.starts_with("__hexbytes__") {
